@@ -375,6 +375,7 @@ func (ex *explorer) newInput(fr *frame, id, kind string, k types.BasicKind, lo, 
 			ex.assume(c)
 		}
 	case "intm":
+		sym.VarRange[t] = [2]*big.Int{big.NewInt(lo), big.NewInt(hi)}
 		ex.assume(sym.And(sym.Le(sym.IntConst(lo), t), sym.Le(t, sym.IntConst(hi))))
 	}
 	return mkScalar(t, k)
